@@ -32,6 +32,17 @@ func (e *InjErr) Error() string {
 
 func (e *InjErr) Unwrap() error { return e.Inner }
 
+// chainHasTypedNil: some error in the chain is a nil pointer wrapped in a non-nil error interface.
+func chainHasTypedNil(err error) bool {
+	for i := 0; err != nil && i < 64; i++ {
+		if v := reflect.ValueOf(err); v.Kind() == reflect.Ptr && v.IsNil() {
+			return true
+		}
+		err = errors.Unwrap(err)
+	}
+	return false
+}
+
 // foreignCycleError: the cycle rejection another container (DeferAcyclicVerification) returns for an Invoke.
 func foreignCycleError() error {
 	sub := dig.New(dig.DeferAcyclicVerification())
@@ -849,7 +860,9 @@ func (w *World) stepCall(i int, op *Op, rec *OpRec) {
 	if err != nil && pan == nil {
 		// rendering an error dig returned must not panic either
 		_, fp := guarded(func() error { _ = err.Error(); _ = fmt.Sprintf("%+v", err); return nil })
-		if fp != nil {
+		if fp != nil && !chainHasTypedNil(err) {
+			// (a typed-nil pointer returned as an error by a user function panics in its own value-receiver
+			// Error method: that is the user type's doing, not dig's)
 			rec.Panic = fmt.Sprintf("formatting the returned error panicked: %v", fp)
 			rec.Verdict = VPanic
 		}
